@@ -97,7 +97,7 @@ def info(tier):
         "constraints, is_satisfied and violation at 4 points off the boundary, and the SciPy constraint dicts captured at "
         "the minimize seam probed at 6 points (fun sign pattern, fun value, jac vs jet gradient); distinct = canonical "
         "relation hashes" % len(matrix_cases()),
-        "required_cells": sorted({c for c, _, _ in matrix_cases()}) + ["multi-relation-problem"],
+        "required_cells": sorted({c for c, _, _ in matrix_cases()}) + ["multi-relation-problem", "history:objective-swap-keeps-constraints"],
         "assumptions": ["probe points keep |lhs-rhs| >= 1e-3 (the relation is decided away from the boundary)",
                         "a relation the API rejects with an exception is 'unsupported' unless it is a shape mismatch, where rejection is required"],
     }
@@ -306,7 +306,10 @@ def run_multi(rec, rng, seams, rels, decls, cell):
     pv = D.param_values()
     try:
         b = B.Builder(decls)
-        P = optyx.Problem().minimize((b.variables([names[0]])[0] - 0.5) ** 2)
+        # the objective owns one variable of its own, last in the natural order ("zz"); later it is replaced by an objective
+        # owning another one that sorts first ("a0"): same number of variables, every position shifted
+        own1, own2 = b.variables(["zz", "a0"])
+        P = optyx.Problem().minimize((own1 - 0.5) ** 2 + (b.variables([names[0]])[0] - 0.5) ** 2)
         counts = []
         for r in rels:
             c = b.rel(r)
@@ -315,23 +318,38 @@ def run_multi(rec, rng, seams, rels, decls, cell):
     except Exception as ex:
         rec.events["unsupported-build:" + type(ex).__name__] += 1
         return
+    for phase in ("as-written", "after-objective-swap"):
+        if phase == "after-objective-swap":
+            try:
+                P.minimize((own2 - 0.25) ** 2 + (b.variables([names[0]])[0] - 0.5) ** 2)
+            except Exception as ex:
+                rec.violation("objective-swap-raises:" + type(ex).__name__, {"show": show, "error": repr(ex)[:200]})
+                return
+            rec.cmp(1, "history:objective-swap-keeps-constraints")
+        if not _check_dicts(rec, rng, seams, P, D, rels, counts, names, pv, cell, show, phase):
+            return
+    rec.sample(show, cap=5)
+
+
+def _check_dicts(rec, rng, seams, P, D, rels, counts, names, pv, cell, show, phase):
     V = [v.name for v in P.variables]
+    tag = "" if phase == "as-written" else ":" + phase
     seams.reset()
     seams.min_stub = lambda call: OptimizeResult(x=np.array(call["x0"], dtype=float), success=False, status=9, message="stubbed", fun=0.0, nit=0)
     try:
         P.solve(method="SLSQP", x0=np.full(len(V), 0.7))
     except Exception as ex:
-        rec.violation("solve-with-constraints-raises:" + type(ex).__name__, {"show": show, "error": repr(ex)[:200]})
-        return
+        rec.violation("solve-with-constraints-raises:" + type(ex).__name__ + tag, {"show": show, "error": repr(ex)[:200]})
+        return False
     finally:
         seams.min_stub = None
     dicts = list(seams.min_calls[0]["constraints"] or []) if seams.min_calls else []
     rec.cmp(1, cell)
     if len(dicts) != sum(counts):
-        rec.violation("wrong-number-of-scipy-constraints", {"show": show, "got": len(dicts), "want": sum(counts)})
-        return
+        rec.violation("wrong-number-of-scipy-constraints" + tag, {"show": show, "got": len(dicts), "want": sum(counts)})
+        return False
     for _ in range(4):
-        pt = {n: round(rng.uniform(-2.0, 2.5), 3) for n in names}
+        pt = {n: round(rng.uniform(-2.0, 2.5), 3) for n in list(names) + ["zz", "a0"]}
         x = B.point_array(V, pt)
         k = 0
         for r in rels:
@@ -350,12 +368,12 @@ def run_multi(rec, rng, seams, rels, decls, cell):
                     sign = 1.0 if abs(f - float(diff.v)) <= abs(f + float(diff.v)) else -1.0
                 rec.cmp(2, cell)
                 if dct.get("type") != ("eq" if s == "==" else "ineq") or not close(f, sign * float(diff.v), 1e-9, jalg.t.mag)[0]:
-                    rec.violation("scipy-fun-is-not-the-signed-difference-of-its-own-relation", {"show": show, "relation": A.render(r), "got": f, "want": sign * float(diff.v), "type": dct.get("type")})
-                    return
+                    rec.violation("scipy-fun-is-not-the-signed-difference-of-its-own-relation" + tag, {"show": show, "relation": A.render(r), "got": f, "want": sign * float(diff.v), "type": dct.get("type")})
+                    return False
                 if not all(close(a_, b_, 1e-7, max(jalg.t.mag, jalg.t.dmag))[0] for a_, b_ in zip(jac, sign * diff.g)):
-                    rec.violation("scipy-jac-is-not-the-derivative-of-fun", {"show": show, "relation": A.render(r), "got": jac.tolist(), "want": (sign * diff.g).tolist()})
-                    return
-    rec.sample(show, cap=5)
+                    rec.violation("scipy-jac-is-not-the-derivative-of-fun" + tag, {"show": show, "relation": A.render(r), "got": jac.tolist(), "want": (sign * diff.g).tolist()})
+                    return False
+    return True
 
 
 def multi_cases(rng):
